@@ -187,7 +187,9 @@ ClassBase(c) == CASE c = "ROM" -> ROMBase [] c = "SRAM" -> SRAMBase [] c = "WRAM
 \* C11 for arbitrary system map sys(_) and mapper function b2p(_)
 AgreeAt(sys(_), b2p(_), a) ==
   LET s == sys(a)  p == b2p(a) IN
-  (s.cls \in {"ROM", "SRAM", "WRAM"} /\ p # Unmapped) =>
+  \* "never backs an address with a different memory class than the mapper assigns": an address the
+  \* mapper translates must be backed by that class (same cell) or not be backed at all
+  (s.cls # "none" /\ p # Unmapped) =>
       /\ Class(p) = s.cls
       /\ p - ClassBase(s.cls) = s.cell
 =============================================================================
